@@ -144,11 +144,60 @@ func (sh *Shaper) allocInfo(a *ssa.Alloc) *allocInfo {
 				}
 			}
 		case *ssa.DebugRef:
+		case *ssa.MakeClosure:
+			// captured by a closure: harmless when the closure only reads the variable
+			if !closureOnlyReads(r, a) {
+				ai.escapes = true
+			}
 		default:
 			ai.escapes = true
 		}
 	}
 	return ai
+}
+
+// closureOnlyReads: the closure receives addr as a binding and never stores through the
+// corresponding free variable (nor passes it on).
+func closureOnlyReads(mc *ssa.MakeClosure, addr ssa.Value) bool {
+	fn, ok := mc.Fn.(*ssa.Function)
+	if !ok {
+		return false
+	}
+	for j, b := range mc.Bindings {
+		if b != addr || j >= len(fn.FreeVars) {
+			continue
+		}
+		fv := fn.FreeVars[j]
+		if fv.Referrers() == nil {
+			continue
+		}
+		var okUse func(v ssa.Value, depth int) bool
+		okUse = func(v ssa.Value, depth int) bool {
+			if v.Referrers() == nil || depth > 4 {
+				return depth <= 4
+			}
+			for _, ref := range *v.Referrers() {
+				switch x := ref.(type) {
+				case *ssa.UnOp, *ssa.DebugRef:
+				case *ssa.FieldAddr:
+					if !okUse(x, depth+1) {
+						return false
+					}
+				case *ssa.IndexAddr:
+					if !okUse(x, depth+1) {
+						return false
+					}
+				default:
+					return false
+				}
+			}
+			return true
+		}
+		if !okUse(fv, 0) {
+			return false
+		}
+	}
+	return true
 }
 
 // Of returns the shape of v.
@@ -173,17 +222,23 @@ func (sh *Shaper) Of(v ssa.Value) *Shape {
 			}
 		}
 		if call != nil {
-			// (closures only: calls of named helpers keep their @name(...) form, which rules refer to)
-			if callee := call.Call.StaticCallee(); callee != nil && callee.Parent() != nil && sh.unit.by[callee] != nil && sh.unit.by[callee].call == call {
+			// (only folded helpers: closures invoked on the spot and functions split off after the
+			// rules were written; calls of the known functions keep their @name(...) form)
+			if callee := call.Call.StaticCallee(); callee != nil && sh.unit.by[callee] != nil && sh.unit.by[callee].call == call {
 				var rets []*ssa.Return
 				for _, b := range callee.Blocks {
 					if r, ok := b.Instrs[len(b.Instrs)-1].(*ssa.Return); ok && !(b.Comment == "recover" && len(b.Preds) == 0) {
 						rets = append(rets, r)
 					}
 				}
-				if _, isCall := v.(*ssa.Call); len(rets) == 1 && ri < len(rets[0].Results) && (!isCall || len(rets[0].Results) == 1) && !sh.busy[v] {
+				_, isCall := v.(*ssa.Call)
+				if len(rets) >= 1 && len(rets) <= 8 && ri < len(rets[0].Results) && (!isCall || len(rets[0].Results) == 1) && !sh.busy[v] {
 					sh.busy[v] = true
-					s := sh.Of(rets[0].Results[ri])
+					var alts []*Shape
+					for _, r := range rets {
+						alts = append(alts, sh.Of(r.Results[ri]))
+					}
+					s := mkPhi(alts)
 					delete(sh.busy, v)
 					sh.memo[v] = s
 					return s
@@ -710,6 +765,10 @@ func (sh *Shaper) load(addr ssa.Value) *Shape {
 		// field of a local struct assembled by field stores
 		if a, ok := x.X.(*ssa.Alloc); ok {
 			ai := sh.allocInfo(a)
+			if !ai.escapes && len(ai.whole) == 1 && len(ai.fields) == 0 {
+				// assigned once as a whole (e.g. a call's result): the field of that value
+				return mkFld(sh.Of(ai.whole[0]), fieldName(a.Type(), x.Field))
+			}
 			if len(ai.whole) == 0 {
 				if vals := ai.fields[x.Field]; len(vals) > 0 {
 					var alts []*Shape
